@@ -32,6 +32,20 @@ theorem vhost_sort_irrelevant (srt srt' : List Wild → List Wild) (hs : IsSorte
     findVirtualHost t host = findVirtualHost t' host := by
   rw [vhost_refines srt hs cfg t hb, vhost_refines srt' hs' cfg t' hb']
 
+/-- **case-insensitive**: Host values that differ only in letter case select the same virtual host (configured
+domains are lower-cased when the tables are built, so the same holds on the configuration side by construction). -/
+theorem vhost_case_insensitive (srt : List Wild → List Wild) (hs : IsSorter srt) (cfg : Config) (t : Tables)
+    (hb : build srt cfg = .ok t) (h h' : Str) (heq : lower h = lower h') :
+    findVirtualHost t (some h) = findVirtualHost t (some h') := by
+  rw [vhost_refines srt hs cfg t hb, vhost_refines srt hs cfg t hb]
+  exact vhost_case_insensitive_core cfg h h' heq
+
+/-- the selected virtual host is a configured one (or −1 = none). -/
+theorem vhost_in_range (srt : List Wild → List Wild) (hs : IsSorter srt) (cfg : Config) (t : Tables)
+    (hb : build srt cfg = .ok t) (host : Option Str) :
+    findVirtualHost t host = -1 ∨ (0 ≤ findVirtualHost t host ∧ findVirtualHost t host < cfg.length) := by
+  rw [vhost_refines srt hs cfg t hb]; exact vhost_index_valid cfg host
+
 /-- **rule_refines**: a rule built by `NewRouteBase` matches a request exactly when all matchers of the configured
 route hold (path / prefix / regex, header conjunction, method via the request variable, variable matchers, RPC
 headers), for every regex oracle. -/
@@ -133,6 +147,7 @@ example : Spec.vhost exCfg (some "x.a.cc:81".toList) = 3 := by decide       -- w
 example : Spec.vhost exCfg (some "x.org".toList) = 4 := by decide           -- default
 example : Spec.vhost exCfg none = 4 ∧ Spec.vhost exCfg (some []) = 4 ∧ Spec.vhost exCfg (some "a:b:c".toList) = 4 := by decide
 example : Spec.vhost [⟨["a.cc".toList], []⟩] (some "b.cc".toList) = -1 := by decide
+example : lower "A.Cc:80".toList = lower "a.cC:80".toList := by decide
 
 /-- a route list mixing kinds: the prefix rule with a method matcher shadows the later catch-all only for GET -/
 def exRoutes : List MatchCfg :=
